@@ -203,7 +203,7 @@ def gen_history(rng, fam):
             if rng.random() < 0.25:
                 op['extras'] = [[rng.randrange(ntask), rng.choice(
                     ('scalar', 'text', 'area', 'outdir-none', 'list',
-                     'outdir-nul'))]
+                     'outdir-nul', 'tuple-key', 'int-key'))]
                     for _ in range(rng.choice((1, 1, 2)))]
             if faulty and rng.random() < 0.6:
                 kind = rng.choice(('crash', 'crash', 'eio', 'open-fail'))
@@ -355,6 +355,14 @@ def _run_history(scn, sim, res, root):
             def add_extras(pos):
                 for what in extras.get(pos, []):
                     key = 'x-%s-%d' % (what, pos)
+                    if what == 'tuple-key':
+                        # a value shared by tasks under a key that is not a
+                        # string (and cannot be ordered against strings)
+                        envd[('shared', pos)] = 1000
+                        continue
+                    if what == 'int-key':
+                        envd[pos] = 'shared'
+                        continue
                     envd[key] = {'scalar': 1000, 'text': 'shared',
                                  'area': {'by': {'somebody': 1}},
                                  'outdir-none': {'status': status_enum.DONE,
